@@ -7,6 +7,7 @@ Line-protocol driver of the block-map model (shared by C05 and C08).
     put <size>          -> ok <ticket> <relBlock> <off> | err <code>       (reserve space)
     fin <ticket>        -> ok <relBlock> <off> | err internal                (finalizer check)
     corrupt <ticket>    -> ok                                                 (integrity callback(false) for its block)
+    hold <ticket> / badread <ticket>   -> ok   (reader kept open across other operations, then hits corruption)
     state               -> old=<n> total=<n> released=<n> pushes=<n> res=<bits>
 -/
 namespace BB.Driver.BlockMapCommon
@@ -57,6 +58,14 @@ def step (s : S) (line : String) : S × String :=
   | ["corrupt", n] =>
     match (nat? n).bind s.ticket? with
     | some t => ({ s with st := reportCorruption s.st t.blk }, "ok")
+    | none => (s, "bad-op")
+  | ["hold", n] =>        -- a reader is opened on the ticket's object and kept open
+    match (nat? n).bind s.ticket? with
+    | some t => ({ s with st := pin s.st t.blk }, "ok")
+    | none => (s, "bad-op")
+  | ["badread", n] =>     -- the held reader is consumed and detects corruption: callback(false), reader closed
+    match (nat? n).bind s.ticket? with
+    | some t => ({ s with st := unpin (reportCorruption s.st t.blk) t.blk }, "ok")
     | none => (s, "bad-op")
   | ["state"] => (s, showState s)
   | _ => (s, "bad-op")
